@@ -296,6 +296,50 @@ class Check:
             raise Vacuous(f"{self.pid}.{group}: only {len(outcomes)} distinct outcome(s) over {st['executed']} executed cases")
         return cases, results
 
+    def bfs(self, group, fn, cfgs, ops_fn, depth, rule=None, nproc=None, chunk=None):
+        """Breadth-first search over operation histories on the real objects.
+
+        A task is {"cfg": cfg, "hist": [op, ...]}; ``fn`` replays the whole history on a
+        fresh object, checks the invariants of the *last* step (earlier steps were checked
+        when their prefix was executed) and returns the canonical state key as outcome.
+        A state is expanded once (first history reaching it, i.e. a shortest one); states
+        reached by a failing step are reported but not expanded."""
+        seen = set()
+        level = [{"cfg": c, "hist": []} for c in cfgs]
+        pruned = 0
+        maxd = 0
+        per_depth = []
+        for d in range(depth + 1):
+            if not level:
+                break
+            cases, results = self.run(group, fn, level, rule=rule if d == 0 else None, nproc=nproc, chunk=chunk, min_outcomes=1, max_skip_frac=1.0)
+            nxt = []
+            new_states = 0
+            for case, res in zip(cases, results):
+                if d > 0:
+                    self.transitions += 1
+                self.traces += 1
+                if res.get("skip"):
+                    continue
+                key = (json.dumps(jsonable(case["cfg"]), sort_keys=True), res.get("outcome"))
+                if res["fails"]:
+                    pruned += 1
+                    continue
+                if key in seen:
+                    continue
+                seen.add(key)
+                new_states += 1
+                maxd = d
+                if d < depth:
+                    for op in ops_fn(case["cfg"]):
+                        nxt.append({"cfg": case["cfg"], "hist": case["hist"] + [op]})
+            per_depth.append({"depth": d, "histories": len(cases), "new_states": new_states})
+            level = nxt
+        self.states += len(seen)
+        b = self.extra_cov.setdefault("bfs", {})
+        b[group] = {"depth_bound": depth, "max_depth_with_new_states": maxd, "states": len(seen), "per_depth": per_depth, "not_expanded_after_failure": pruned}
+        return seen
+
     def control(self, name, detected, info=""):
         """A built-in negative control: the machinery must detect a known-bad input."""
         self.extra_cov.setdefault("negative_controls", {})[name] = {"detected": bool(detected), "info": info}
